@@ -176,6 +176,8 @@ type Txn struct {
 	// PassThroughPLogRemove makes PriorityLog.Remove a pass-through (it runs on a side goroutine in phase 2).
 	PassThroughPLogRemove atomic.Bool
 	reg    fs.Registry
+	// LockResult, when set, is told the outcome of every node-level Lock/DualLock the transaction manager makes.
+	LockResult func(ok bool)
 }
 
 // SetHook installs (or clears, with nil) the hook.
